@@ -143,6 +143,18 @@ def to_tfrecord(saved_data_description: list[Attribute],
             raise ValueError(f"Wrong shape of {attribute.name}, expected: "
                              f"{attribute.shape}, got: {value.shape}.")
 
+        # Values of a foreign kind (e.g., strings or floats for an integer
+        # attribute) would be silently stored as an empty list and the shard
+        # could not be parsed.
+        if attribute.dtype in ["int8", "uint8", "int32", "int64"]:
+            if value.dtype.kind not in "iub":
+                raise ValueError(f"Attribute {attribute.name} expects "
+                                 f"integers, got dtype {value.dtype}.")
+        elif attribute.dtype in ["float16", "float32", "float64"]:
+            if value.dtype.kind not in "fiub":
+                raise ValueError(f"Attribute {attribute.name} expects "
+                                 f"numbers, got dtype {value.dtype}.")
+
         # Set feature value
         if attribute.dtype in ["int8", "uint8", "int32", "int64"]:
             feature[attribute.name] = int64_feature(values[attribute.name])
